@@ -402,16 +402,43 @@ Qed.
 Theorem write_ttml_c_total : forall w (p : N), write_ttml_c w <> Panic p.
 Proof. intros w p. rewrite write_ttml_c_agrees. apply write_ttml_total. Qed.
 
-(* the guards are what keeps the sites unreachable: a header looked up by a key whose entry is nil, an unguarded
-   dereference of a nil InlineStyle, a nil-map store, Items[:len(Items)-1] of an empty slice *)
+(* nil items: whatever nil elements the list has, no panic; they are skipped *)
+Theorem write_ttml_items_c_total : forall items w (p : N), write_ttml_items_c items w <> Panic p.
+Proof. intros items w p. unfold write_ttml_items_c. apply write_ttml_c_total. Qed.
+Theorem ttml_nil_items_skipped : forall (l : list ttc_witem) (a b : list (option ttc_witem)) w,
+  somes a = [] -> somes b = [] ->
+  write_ttml_items_c (a ++ map Some l ++ b) w = write_ttml_items_c (map Some l) w.
+Proof.
+  intros l a b w Ha Hb. unfold write_ttml_items_c. rewrite !somes_app, Ha, Hb, somes_map_Some, app_nil_r. reflexivity.
+Qed.
+Example ttml_only_nil_items : forall w, write_ttml_items_c [None; None] w = Err ENothingToWrite.
+Proof. intros w. reflexivity. Qed.
+
+(* the guards are what keeps the sites unreachable: each line is a function of the checked model (or its variant with
+   ONE guard dropped, equal to the model function when the guard is kept) evaluated where the guard would have stopped it *)
+Lemma out_attrs_g_kept s : out_attrs_g true s = out_attrs_c s.
+Proof. reflexivity. Qed.
+Lemma out_p_g_kept it : out_p_g true it = out_p_c it.
+Proof. reflexivity. Qed.
+Lemma propagate_g_kept a : propagate_g true a = propagate_c a.
+Proof. reflexivity. Qed.
+Definition ttc_extent_only (e : str) : tattrs :=
+  mkTA (map (fun i => if Nat.eqb i 5 then Some e else None) (seq 0 (length attr_names))) None.
 Example ttml_unguarded_sites :
+  (* a header looked up by a key whose entry is nil (the key collection's "if region != nil" dropped) *)
   out_header_c s_region [([114], None)] 690 691 693 694 [114] = Panic 690 /\
-  deref (@None tattrs) 560 = Panic 560 /\
-  ttc_store (@None (list (str * tstyle))) [] (mkStyle [] None no_attrs) 375 = Panic 375 /\
-  ttc_drop_last (@nil xnode) 763 = Panic 763 /\
+  (* ttmlOutStyleAttributesFromStyleAttributes without its nil test, on a nil InlineStyle *)
+  out_attrs_g false None = Panic 560 /\ out_attrs_g true None = Ok no_attrs /\
+  (* the style loop of ReadFromTTML on a Subtitles whose Styles map was never allocated *)
+  styles_loop_c [mkStyle [] None no_attrs] None None = Panic 375 /\
+  (* a paragraph without lines: Items[:len(Items)-1] without the length test *)
+  out_p_g false (mkTWitem 0 0 None None None []) = Panic 763 /\
+  (exists n, out_p_g true (mkTWitem 0 0 None None None []) = Ok n) /\
   (* tts:extent="80%": dimensions[1] without len(dimensions) > 1 *)
-  index (split_byte 32 [56; 48; 37]) 1 (ttc_sub 394) = Panic 10394.
-Proof. repeat split. Qed.
+  propagate_g false (ttc_extent_only [56; 48; 37]) = Panic 10394 /\
+  propagate_g true (ttc_extent_only [56; 48; 37]) = Ok tt.
+Proof. repeat split; try reflexivity. eexists. reflexivity. Qed.
 
 Print Assumptions read_ttml_c_total.
 Print Assumptions write_ttml_c_total.
+Print Assumptions write_ttml_items_c_total.
